@@ -192,7 +192,8 @@ def close_value_programs():
                 "body": [("assign", "x", half(("mul", const(F(1, 32768)), var("x")))), ("assign", "y", det(("add", const(1), var("x")))),
                          ("if", [(("atom", var("y"), "==", const(1)), [("assign", "c", det(("add", var("c"), const(1))))]),
                                  (("atom", ("sub", const(1), var("x")), ">=", const(1)), [("assign", "c", det(("add", var("c"), const(2))))])], None)]})
-    return [{"prog": p, "kinds": {"close-values": 1}, "explicit_last": True, "N": 4} for p in out]
+    # (the last program adds 1: two divisions by 2**15 at most, 1 + 2**-30 is a double; 1 + 2**-60 would not be)
+    return [{"prog": p, "kinds": {"close-values": 1}, "explicit_last": True, "N": 4 if i < 3 else 2} for i, p in enumerate(out)]
 
 
 def generate(rng, n, size=1):
